@@ -30,6 +30,20 @@ fn main() {
         "layout" => layout::run_layout(rest),
         "lspx" => lspx::run_lspx(rest),
         "lspx-one" => lspx::run_lspx_one(rest),
+        "hashorder" => {
+            // witness for C12: the iteration order of std HashMaps created in this process (depends on the hash seed)
+            let mut m2: std::collections::HashMap<String, u8> = std::collections::HashMap::new();
+            for k in ["serde_json", "regex"] {
+                m2.insert(k.to_string(), 0);
+            }
+            let mut m3: std::collections::HashMap<String, u8> = std::collections::HashMap::new();
+            for k in ["serde_json", "regex", "chrono"] {
+                m3.insert(k.to_string(), 0);
+            }
+            let o2: Vec<&String> = m2.keys().collect();
+            let o3: Vec<&String> = m3.keys().collect();
+            println!("{o2:?} {o3:?}");
+        }
         other => {
             eprintln!("unknown subcommand {other}");
             std::process::exit(2);
